@@ -655,4 +655,372 @@ theorem encode_varint_eq (fuel : Nat) (hf : 9 ≤ fuel) (value : Int) :
       have e8 : Int.toNat (8 - 0) = 8 := rfl
       rw [e8, hv']
 
+/-! ### slices and struct.unpack -/
+
+theorem pySliceIdx_nat (len n : Nat) : pySliceIdx len (n : Int) = min n len := by
+  unfold pySliceIdx
+  rw [if_neg (by omega)]
+  congr 1
+
+/-- a slice with non-negative bounds is the model's `Buf.slice` -/
+theorem pySliceBuf_nat (b : Buf) (lo hi : Nat) :
+    pySliceBuf b (lo : Int) (hi : Int) = (b.slice lo hi).toList := by
+  unfold pySliceBuf Buf.slice Buf.toList
+  simp only [pySliceIdx_nat]
+
+theorem pyBE_append (l : List Nat) (x : Nat) : pyBE (l ++ [x]) = pyBE l * 256 + x := by
+  unfold pyBE
+  rw [List.foldl_append]
+  rfl
+
+theorem pyBE_range (rd : Nat → Nat) (off : Nat) : ∀ n, pyBE ((List.range n).map fun i => rd (off + i)) =
+    Buf.beN ⟨0, rd⟩ off n := by
+  intro n
+  induction n with
+  | zero => rfl
+  | succ n ih =>
+    rw [List.range_succ, List.map_append, List.map_singleton, pyBE_append, ih]
+    rfl
+
+theorem beN_congr (b : Buf) (off n : Nat) : Buf.beN ⟨0, b.rd⟩ off n = b.beN off n := by
+  induction n with
+  | zero => rfl
+  | succ n ih => simp only [Buf.beN, ih]
+
+/-- the bytes of an in-range slice and their big-endian value -/
+theorem slice_toList_length (b : Buf) (lo hi : Nat) : (b.slice lo hi).toList.length = min hi b.size - min lo b.size := by
+  simp [Buf.toList, Buf.slice]
+
+theorem slice_toList_be (b : Buf) (off n : Nat) (h : off + n ≤ b.size) :
+    pyBE (b.slice off (off + n)).toList = b.beN off n := by
+  unfold Buf.slice Buf.toList
+  have e1 : min off b.size = off := by omega
+  have e2 : min (off + n) b.size - off = n := by omega
+  simp only [e1, e2]
+  rw [pyBE_range, beN_congr]
+
+/-- `unpack(fmt, body[off:off+n])[0]` is the model's `unpackN` (then the sign reading) -/
+theorem pyUnpackBE_slice (signed : Bool) (b : Buf) (off n : Nat) (hn : 0 < n) :
+    pyUnpackBE signed n (b.slice off (off + n)).toList =
+      match unpackN b off n with
+      | .ok u => .ok (if signed then toSigned (8 * n) u else (u : Int))
+      | .error e => .error e := by
+  unfold pyUnpackBE unpackN
+  rw [slice_toList_length]
+  by_cases h : off + n ≤ b.size
+  · rw [if_pos (by omega), if_pos h, slice_toList_be b off n h]
+    cases signed with
+    | false => simp
+    | true =>
+      simp only [true_and, toSigned, if_true]
+      split <;> rfl
+  · rw [if_neg (by omega), if_neg h]
+
+theorem unpack_at (signed : Bool) (b : Buf) (off n : Nat) (hn : 0 < n) :
+    pyUnpackBE signed n (pySliceBuf b (off : Int) ((off : Int) + (n : Int))) =
+      match unpackN b off n with
+      | .ok u => .ok (if signed then toSigned (8 * n) u else (u : Int))
+      | .error e => .error e := by
+  rw [← Int.natCast_add, pySliceBuf_nat, pyUnpackBE_slice signed b off n hn]
+
+/-- zero padding in front does not change the big-endian value -/
+theorem pyBE_zero_cons (l : List Nat) : pyBE (0 :: l) = pyBE l := by
+  unfold pyBE
+  rfl
+
+theorem unpack_padded (b : Buf) (off n pad : Nat) (hn : 0 < n) (zs : List Nat) (hz : zs = List.replicate pad 0) :
+    pyUnpackBE false (pad + n) (zs ++ pySliceBuf b (off : Int) ((off : Int) + (n : Int))) =
+      match unpackN b off n with
+      | .ok u => .ok (u : Int)
+      | .error e => .error e := by
+  subst hz
+  rw [← Int.natCast_add, pySliceBuf_nat]
+  unfold pyUnpackBE unpackN
+  rw [List.length_append, List.length_replicate, slice_toList_length]
+  have hbe : ∀ (p : Nat) (l : List Nat), pyBE (List.replicate p 0 ++ l) = pyBE l := by
+    intro p l
+    induction p with
+    | zero => rfl
+    | succ p ih => rw [List.replicate_succ, List.cons_append, pyBE_zero_cons, ih]
+  by_cases h : off + n ≤ b.size
+  · rw [if_pos (by omega), if_pos h, hbe, slice_toList_be b off n h]
+    simp
+  · rw [if_neg (by omega), if_neg h]
+
+theorem unpackDouble_at (b : Buf) (off : Nat) :
+    pyUnpackDouble (pySliceBuf b (off : Int) ((off : Int) + 8)) = unpackN b off 8 := by
+  have e : (off : Int) + 8 = ((off + 8 : Nat) : Int) := by omega
+  rw [e, pySliceBuf_nat]
+  unfold pyUnpackDouble unpackN
+  rw [slice_toList_length]
+  by_cases h : off + 8 ≤ b.size
+  · rw [if_pos (by omega), if_pos h, slice_toList_be b off 8 h]
+  · rw [if_neg (by omega), if_neg h]
+
+theorem sign_fix (u m : Nat) (k : Int) :
+    (if pyAnd (u : Int) (m : Int) ≠ 0 then (u : Int) - k else (u : Int)) =
+      (if u &&& m ≠ 0 then (u : Int) - k else (u : Int)) := by
+  rw [pyAnd_nat]
+  generalize u &&& m = c
+  by_cases hc : c = 0
+  · subst hc; simp
+  · have : (c : Int) ≠ 0 := by omega
+    rw [if_pos this, if_pos hc]
+
+/-! ### get_record_content -/
+
+/-- a model value as the Python value: blobs and texts are both `bytes` at this level (the caller decodes) -/
+def castVal : Val → PyVal
+  | .null => .none
+  | .int i => .int i
+  | .real b => .float64 b
+  | .blob l => .bytes l
+  | .text l => .bytes l
+
+def castRec : Py (Nat × Val) → Py (Int × PyVal)
+  | .ok (n, v) => .ok ((n : Int), castVal v)
+  | .error e => .error e
+
+theorem get_record_content_eq (st : Int) (body : Buf) (off : Nat) :
+    PyFun.get_record_content st body (off : Int) = castRec (getRecordContent st body off) := by
+  have h2 : Int.fmod st 2 = st % 2 := Int.fmod_eq_emod_of_nonneg st (by omega)
+  have u1 : pyUnpackBE true 1 (pySliceBuf body ↑off (↑off + 1)) = _ := unpack_at true body off 1 (by decide)
+  have u2 : pyUnpackBE true 2 (pySliceBuf body ↑off (↑off + 2)) = _ := unpack_at true body off 2 (by decide)
+  have u4 : pyUnpackBE true 4 (pySliceBuf body ↑off (↑off + 4)) = _ := unpack_at true body off 4 (by decide)
+  have u8 : pyUnpackBE true 8 (pySliceBuf body ↑off (↑off + 8)) = _ := unpack_at true body off 8 (by decide)
+  have u3 : pyUnpackBE false 4 ([0] ++ pySliceBuf body ↑off (↑off + 3)) = _ :=
+    unpack_padded body off 3 1 (by decide) [0] rfl
+  have u6 : pyUnpackBE false 8 (([0] ++ [0]) ++ pySliceBuf body ↑off (↑off + 6)) = _ :=
+    unpack_padded body off 6 2 (by decide) ([0] ++ [0]) rfl
+  have ud := unpackDouble_at body off
+  rcases (by omega : st = 0 ∨ st = 1 ∨ st = 2 ∨ st = 3 ∨ st = 4 ∨ st = 5 ∨ st = 6 ∨ st = 7 ∨ st = 8 ∨ st = 9 ∨
+      (st = 10 ∨ st = 11) ∨ st < 0 ∨ (12 ≤ st ∧ st % 2 = 0) ∨ (13 ≤ st ∧ st % 2 = 1)) with
+    h | h | h | h | h | h | h | h | h | h | h | h | h | h
+  · have hk : (st = 0) = True := eq_true h
+    simp only [PyFun.get_record_content, getRecordContent, hk, if_true]
+    rfl
+  · have hk : (st = 1) = True := eq_true h
+    have hs : (st = 0) = False := by apply eq_false; omega
+    have c0 := hs
+    simp only [PyFun.get_record_content, getRecordContent, hk, c0, if_false, if_true]
+    rw [u1]
+    cases unpackN body off _ <;> rfl
+  · have hk : (st = 2) = True := eq_true h
+    have hs : (st = 0) = False ∧ (st = 1) = False := by
+      refine ⟨?_, ?_⟩ <;> (apply eq_false; omega)
+    obtain ⟨c0, c1⟩ := hs
+    simp only [PyFun.get_record_content, getRecordContent, hk, c0, c1, if_false, if_true]
+    rw [u2]
+    cases unpackN body off _ <;> rfl
+  · have hk : (st = 3) = True := eq_true h
+    have hs : (st = 0) = False ∧ (st = 1) = False ∧ (st = 2) = False := by
+      refine ⟨?_, ?_, ?_⟩ <;> (apply eq_false; omega)
+    obtain ⟨c0, c1, c2⟩ := hs
+    simp only [PyFun.get_record_content, getRecordContent, hk, c0, c1, c2, if_false, if_true]
+    rw [u3]
+    cases unpackN body off 3 with
+    | error e => rfl
+    | ok u =>
+      have := sign_fix u 0x800000 0x1000000
+      simp only [bind, Except.bind, castRec, castVal, pure, Except.pure]
+      exact congrArg (fun v => Except.ok ((3 : Int), PyVal.int v)) this
+  · have hk : (st = 4) = True := eq_true h
+    have hs : (st = 0) = False ∧ (st = 1) = False ∧ (st = 2) = False ∧ (st = 3) = False := by
+      refine ⟨?_, ?_, ?_, ?_⟩ <;> (apply eq_false; omega)
+    obtain ⟨c0, c1, c2, c3⟩ := hs
+    simp only [PyFun.get_record_content, getRecordContent, hk, c0, c1, c2, c3, if_false, if_true]
+    rw [u4]
+    cases unpackN body off _ <;> rfl
+  · have hk : (st = 5) = True := eq_true h
+    have hs : (st = 0) = False ∧ (st = 1) = False ∧ (st = 2) = False ∧ (st = 3) = False ∧ (st = 4) = False := by
+      refine ⟨?_, ?_, ?_, ?_, ?_⟩ <;> (apply eq_false; omega)
+    obtain ⟨c0, c1, c2, c3, c4⟩ := hs
+    simp only [PyFun.get_record_content, getRecordContent, hk, c0, c1, c2, c3, c4, if_false, if_true]
+    rw [u6]
+    cases unpackN body off 6 with
+    | error e => rfl
+    | ok u =>
+      have := sign_fix u 0x800000000000 0x1000000000000
+      simp only [bind, Except.bind, castRec, castVal, pure, Except.pure]
+      exact congrArg (fun v => Except.ok ((6 : Int), PyVal.int v)) this
+  · have hk : (st = 6) = True := eq_true h
+    have hs : (st = 0) = False ∧ (st = 1) = False ∧ (st = 2) = False ∧ (st = 3) = False ∧ (st = 4) = False ∧ (st = 5) = False := by
+      refine ⟨?_, ?_, ?_, ?_, ?_, ?_⟩ <;> (apply eq_false; omega)
+    obtain ⟨c0, c1, c2, c3, c4, c5⟩ := hs
+    simp only [PyFun.get_record_content, getRecordContent, hk, c0, c1, c2, c3, c4, c5, if_false, if_true]
+    rw [u8]
+    cases unpackN body off _ <;> rfl
+  · have hk : (st = 7) = True := eq_true h
+    have hs : (st = 0) = False ∧ (st = 1) = False ∧ (st = 2) = False ∧ (st = 3) = False ∧ (st = 4) = False ∧ (st = 5) = False ∧ (st = 6) = False := by
+      refine ⟨?_, ?_, ?_, ?_, ?_, ?_, ?_⟩ <;> (apply eq_false; omega)
+    obtain ⟨c0, c1, c2, c3, c4, c5, c6⟩ := hs
+    simp only [PyFun.get_record_content, getRecordContent, hk, c0, c1, c2, c3, c4, c5, c6, if_false, if_true]
+    rw [ud]
+    cases unpackN body off 8 <;> rfl
+  · have hk : (st = 8) = True := eq_true h
+    have hs : (st = 0) = False ∧ (st = 1) = False ∧ (st = 2) = False ∧ (st = 3) = False ∧ (st = 4) = False ∧ (st = 5) = False ∧ (st = 6) = False ∧ (st = 7) = False := by
+      refine ⟨?_, ?_, ?_, ?_, ?_, ?_, ?_, ?_⟩ <;> (apply eq_false; omega)
+    obtain ⟨c0, c1, c2, c3, c4, c5, c6, c7⟩ := hs
+    simp only [PyFun.get_record_content, getRecordContent, hk, c0, c1, c2, c3, c4, c5, c6, c7, if_false, if_true]
+    rfl
+  · have hk : (st = 9) = True := eq_true h
+    have hs : (st = 0) = False ∧ (st = 1) = False ∧ (st = 2) = False ∧ (st = 3) = False ∧ (st = 4) = False ∧ (st = 5) = False ∧ (st = 6) = False ∧ (st = 7) = False ∧ (st = 8) = False := by
+      refine ⟨?_, ?_, ?_, ?_, ?_, ?_, ?_, ?_, ?_⟩ <;> (apply eq_false; omega)
+    obtain ⟨c0, c1, c2, c3, c4, c5, c6, c7, c8⟩ := hs
+    simp only [PyFun.get_record_content, getRecordContent, hk, c0, c1, c2, c3, c4, c5, c6, c7, c8, if_false, if_true]
+    rfl
+  · -- reserved serial types 10 and 11
+    have hs : (st = 0) = False ∧ (st = 1) = False ∧ (st = 2) = False ∧ (st = 3) = False ∧ (st = 4) = False ∧
+        (st = 5) = False ∧ (st = 6) = False ∧ (st = 7) = False ∧ (st = 8) = False ∧ (st = 9) = False := by
+      refine ⟨?_, ?_, ?_, ?_, ?_, ?_, ?_, ?_, ?_, ?_⟩ <;> (apply eq_false; omega)
+    obtain ⟨c0, c1, c2, c3, c4, c5, c6, c7, c8, c9⟩ := hs
+    simp only [PyFun.get_record_content, getRecordContent, c0, c1, c2, c3, c4, c5, c6, c7, c8, c9, if_false,
+      if_pos h]
+    rfl
+  · -- negative serial types
+    have hs : (st = 0) = False ∧ (st = 1) = False ∧ (st = 2) = False ∧ (st = 3) = False ∧ (st = 4) = False ∧
+        (st = 5) = False ∧ (st = 6) = False ∧ (st = 7) = False ∧ (st = 8) = False ∧ (st = 9) = False := by
+      refine ⟨?_, ?_, ?_, ?_, ?_, ?_, ?_, ?_, ?_, ?_⟩ <;> (apply eq_false; omega)
+    obtain ⟨c0, c1, c2, c3, c4, c5, c6, c7, c8, c9⟩ := hs
+    have ca : ¬ (st = 10 ∨ st = 11) := by omega
+    have cb : ¬ (st ≥ 12 ∧ st % 2 = 0) := by omega
+    have cc : ¬ (st ≥ 13 ∧ st % 2 = 1) := by omega
+    simp only [PyFun.get_record_content, getRecordContent, c0, c1, c2, c3, c4, c5, c6, c7, c8, c9, if_false,
+      if_neg ca, h2, if_neg cb, if_neg cc]
+    rfl
+  · -- blobs
+    have hs : (st = 0) = False ∧ (st = 1) = False ∧ (st = 2) = False ∧ (st = 3) = False ∧ (st = 4) = False ∧
+        (st = 5) = False ∧ (st = 6) = False ∧ (st = 7) = False ∧ (st = 8) = False ∧ (st = 9) = False := by
+      refine ⟨?_, ?_, ?_, ?_, ?_, ?_, ?_, ?_, ?_, ?_⟩ <;> (apply eq_false; omega)
+    obtain ⟨c0, c1, c2, c3, c4, c5, c6, c7, c8, c9⟩ := hs
+    have ca : ¬ (st = 10 ∨ st = 11) := by omega
+    have cb : st ≥ 12 ∧ st % 2 = 0 := by omega
+    simp only [PyFun.get_record_content, getRecordContent, c0, c1, c2, c3, c4, c5, c6, c7, c8, c9, if_false,
+      if_neg ca, h2, if_pos cb]
+    have e : pyIntOfRat (pyTrueDivLit (st - 12) 2) = (((st - 12) / 2).toNat : Int) := by
+      unfold pyIntOfRat pyTrueDivLit
+      rw [Int.tdiv_eq_ediv_of_nonneg (show (0 : Int) ≤ st - 12 by omega)]
+      have : 0 ≤ (st - 12) / 2 := by omega
+      exact (Int.toNat_of_nonneg this).symm
+    rw [e, ← Int.natCast_add, pySliceBuf_nat]
+    rfl
+  · -- texts
+    have hs : (st = 0) = False ∧ (st = 1) = False ∧ (st = 2) = False ∧ (st = 3) = False ∧ (st = 4) = False ∧
+        (st = 5) = False ∧ (st = 6) = False ∧ (st = 7) = False ∧ (st = 8) = False ∧ (st = 9) = False := by
+      refine ⟨?_, ?_, ?_, ?_, ?_, ?_, ?_, ?_, ?_, ?_⟩ <;> (apply eq_false; omega)
+    obtain ⟨c0, c1, c2, c3, c4, c5, c6, c7, c8, c9⟩ := hs
+    have ca : ¬ (st = 10 ∨ st = 11) := by omega
+    have cb : ¬ (st ≥ 12 ∧ st % 2 = 0) := by omega
+    have cc : st ≥ 13 ∧ st % 2 = 1 := by omega
+    simp only [PyFun.get_record_content, getRecordContent, c0, c1, c2, c3, c4, c5, c6, c7, c8, c9, if_false,
+      if_neg ca, h2, if_neg cb, if_pos cc]
+    have e : pyIntOfRat (pyTrueDivLit (st - 13) 2) = (((st - 13) / 2).toNat : Int) := by
+      unfold pyIntOfRat pyTrueDivLit
+      rw [Int.tdiv_eq_ediv_of_nonneg (show (0 : Int) ≤ st - 13 by omega)]
+      have : 0 ≤ (st - 13) / 2 := by omega
+      exact (Int.toNat_of_nonneg this).symm
+    rw [e, ← Int.natCast_add, pySliceBuf_nat]
+    rfl
+
+/-! ### calculate_body_content_size -/
+
+theorem dvLoop_mono (b : Buf) (off : Nat) : ∀ (k v rel u n : Nat), dvLoop b off k v rel = .ok (u, n) → rel ≤ n := by
+  intro k
+  induction k with
+  | zero =>
+    intro v rel u n h
+    simp only [dvLoop, Except.ok.injEq, Prod.mk.injEq] at h
+    omega
+  | succ k ih =>
+    intro v rel u n h
+    unfold dvLoop at h
+    split at h
+    · dsimp only at h
+      split at h
+      · simp only [Except.ok.injEq, Prod.mk.injEq] at h; omega
+      · split at h
+        · simp only [Except.ok.injEq, Prod.mk.injEq] at h; omega
+        · have := ih _ _ _ _ h; omega
+    · cases h
+
+theorem dvLoop_pos (b : Buf) (off : Nat) (k v rel u n : Nat) (h : dvLoop b off (k + 1) v rel = .ok (u, n)) :
+    rel + 1 ≤ n := by
+  unfold dvLoop at h
+  split at h
+  · dsimp only at h
+    split at h
+    · simp only [Except.ok.injEq, Prod.mk.injEq] at h; omega
+    · split at h
+      · simp only [Except.ok.injEq, Prod.mk.injEq] at h; omega
+      · exact dvLoop_mono b off _ _ _ _ _ h
+  · cases h
+
+theorem decodeVarint_pos (b : Buf) (off : Nat) (v : Int) (n : Nat) (h : decodeVarint b off = .ok (v, n)) : 1 ≤ n := by
+  unfold decodeVarint at h
+  cases hd : dvLoop b off 9 0 0 with
+  | error e => rw [hd] at h; cases h
+  | ok r =>
+    obtain ⟨u, m⟩ := r
+    rw [hd] at h
+    have := dvLoop_pos b off 8 0 0 u m hd
+    dsimp only at h
+    split at h <;> (simp only [Except.ok.injEq, Prod.mk.injEq] at h; omega)
+
+/-- the generated `while` state `(body_content_size, start_offset)` without the exhausted offset -/
+def dropOff : Py (Int × Int) → Py Int
+  | .ok (a, _) => .ok a
+  | .error e => .error e
+
+theorem cbcs_loop (hdr : Buf) : ∀ (d f1 f2 start acc : Nat), hdr.size ≤ start + d → d < f1 → d ≤ f2 →
+    dropOff (PyFun.calculate_body_content_size_loop1 hdr f1 (acc : Int) (start : Int)) =
+      castN (cbcsLoop hdr f2 start acc) := by
+  intro d
+  induction d with
+  | zero =>
+    intro f1 f2 start acc hd h1 _
+    obtain ⟨g1, rfl⟩ : ∃ g, f1 = g + 1 := ⟨f1 - 1, by omega⟩
+    have hlt : ¬ start < hdr.size := by omega
+    have hlt' : ¬ (start : Int) < pyLenBuf hdr := by unfold pyLenBuf; omega
+    unfold PyFun.calculate_body_content_size_loop1
+    rw [if_neg hlt']
+    cases f2 <;> (unfold cbcsLoop; rw [if_neg hlt]; rfl)
+  | succ d ih =>
+    intro f1 f2 start acc hd h1 h2
+    obtain ⟨g1, rfl⟩ : ∃ g, f1 = g + 1 := ⟨f1 - 1, by omega⟩
+    obtain ⟨g2, rfl⟩ : ∃ g, f2 = g + 1 := ⟨f2 - 1, by omega⟩
+    unfold PyFun.calculate_body_content_size_loop1 cbcsLoop
+    by_cases hlt : start < hdr.size
+    · have hlt' : (start : Int) < pyLenBuf hdr := by unfold pyLenBuf; omega
+      rw [if_pos hlt', if_pos hlt, decode_varint_eq]
+      cases hv : decodeVarint hdr start with
+      | error e => rfl
+      | ok r =>
+        obtain ⟨st, n⟩ := r
+        have hn := decodeVarint_pos hdr start st n hv
+        simp only [castIN, bind, Except.bind]
+        rw [get_content_size_eq]
+        cases getContentSize st with
+        | error e => rfl
+        | ok sz =>
+          simp only [castN]
+          by_cases hov : start + n > hdr.size
+          · have : (start : Int) + (n : Int) > pyLenBuf hdr := by unfold pyLenBuf; omega
+            rw [if_pos this, if_pos hov]; rfl
+          · have : ¬ (start : Int) + (n : Int) > pyLenBuf hdr := by unfold pyLenBuf; omega
+            rw [if_neg this, if_neg hov, ← Int.natCast_add, ← Int.natCast_add]
+            exact ih g1 g2 (start + n) (acc + sz) (by omega) (by omega) (by omega)
+    · have hlt' : ¬ (start : Int) < pyLenBuf hdr := by unfold pyLenBuf; omega
+      rw [if_neg hlt', if_neg hlt]; rfl
+
+theorem calculate_body_content_size_eq (hdr : Buf) (fuel : Nat) (hf : hdr.size < fuel) :
+    PyFun.calculate_body_content_size fuel hdr = castN (calcBodyContentSize hdr) := by
+  unfold PyFun.calculate_body_content_size calcBodyContentSize
+  have h := cbcs_loop hdr hdr.size fuel hdr.size 0 0 (by omega) hf (by omega)
+  simp only [Int.natCast_zero] at h
+  rw [← h]
+  dsimp only
+  cases PyFun.calculate_body_content_size_loop1 hdr fuel 0 0 with
+  | error e => rfl
+  | ok r => rfl
+
 end SqliteDissect.Proofs.GenFun
